@@ -48,7 +48,7 @@ func (c19) Components() map[string][]string {
 	}
 }
 func (c19) ProbeNames() []string {
-	return []string{"wl-ext4", "wl-fat", "wl-squashfs", "wl-isorr", "special-bits", "uid-over-16bit", "time-pre-1970", "time-post-2038", "long-symlink", "id-table-over-one-block", "fat-flag-change", "fat-time-change", "reopen"}
+	return []string{"wl-ext4", "wl-fat", "wl-squashfs", "wl-isorr", "special-bits", "uid-over-16bit", "time-pre-1970", "time-post-2038", "long-symlink", "id-table-over-one-block", "relocated-directory", "fat-flag-change", "fat-time-change", "reopen"}
 }
 func (c19) Budget(tier string) (int, int, int) {
 	if tier == "thorough" {
@@ -67,7 +67,7 @@ func (c19) Gen(r *core.Rng, tier string, idx int) *core.Trace {
 		t = genExt4History(r, tier, idx, false)
 		// bias towards attribute operations: turn half of the removes/creates into attribute ops
 		ids := []int64{0, 1, 1000, 65535, 65536, 1<<32 - 2, -1}
-		ts := []int64{0, 1, -1, 86400 * 365 * 30, 2147483647, 2147483648, 4102444800, -2147483648, 1700000000}
+		ts := []int64{0, 1, -1, 86400 * 365 * 30, 2147483647, 2147483648, 4102444800, -2147483648, 1700000000, 6442450944, 8589934591, 8589934592, 10737418240, 11811160064, 12884901887, 12884901888, 15032385535}
 		for i := range t.Ops {
 			o := &t.Ops[i]
 			if (o.K == "remove" || o.K == "create" || o.K == "reopen") && r.Chance(50) {
@@ -446,6 +446,19 @@ func execWorkspaceMeta(t *core.Trace) *core.Result {
 			ents = append(ents, wsMeta{path: fmt.Sprintf("ids%02d/o%04d", k/100, k), data: []byte{byte(k)}, mode: 0o644, uid: uint32(100000 + k), gid: uint32(300000 + k), mtime: time.Unix(1700000000+int64(k), 0)})
 		}
 	}
+	if wl == "isorr" && tag%8 == 0 {
+		// a directory nine and ten levels down: Rock Ridge moves it up and leaves a placeholder - attributes included
+		res.Probe("relocated-directory")
+		pth := ""
+		for lv := 1; lv <= 10; lv++ {
+			if pth != "" {
+				pth += "/"
+			}
+			pth += fmt.Sprintf("lv%d", lv)
+			ents = append(ents, wsMeta{path: pth, dir: true, mode: os.FileMode(0o755 - 0o011*(lv%2)), uid: uint32(lv), gid: uint32(100 + lv), mtime: time.Unix(1700000000+int64(lv)*86400, 0)})
+		}
+		ents = append(ents, wsMeta{path: pth + "/leaf.dat", data: []byte("leaf"), mode: 0o640, uid: 7, gid: 8, mtime: time.Unix(1600000000, 0)})
+	}
 	linkLens := []int{1, 7, 59, 60, 61, 200, 1000, 4095}
 	for i := 0; i < 1+r.Intn(3); i++ {
 		ll := linkLens[r.Intn(len(linkLens))]
@@ -608,6 +621,9 @@ func execWorkspaceMeta(t *core.Trace) *core.Result {
 		}
 		if gotKind != kind {
 			return fail("kind", kind, fmt.Sprintf("%q is a %s in the workspace and a %s in the image", e.path, kind, gotKind))
+		}
+		if fi.Mode().IsDir() != fi.IsDir() {
+			return fail("mode", "mode(type-bits)", fmt.Sprintf("%q: IsDir() is %v, the type bits of Mode() say %v (%v)", e.path, fi.IsDir(), fi.Mode().IsDir(), fi.Mode()))
 		}
 		if e.link != "" {
 			if len(e.link) > 255 {
